@@ -20,9 +20,10 @@ Qed.
 (** the refinement theorem in boolean form: the judge's predicate holds on every trace of the
     repaired model *)
 Theorem refine_bool e ops :
+  (forall c, e_kec e c <> []) -> (forall c c', e_kec e c = e_kec e c' -> c = c') ->
   forallb proved_op ops = true ->
   fst (spec_agree_g wf_thm_b false e spec0 ops (snd (run e cfg_fixed st0 ops)) 0) = None.
-Proof. intro Hp. apply spec_agree_iff. apply refine_from_empty. exact Hp. Qed.
+Proof. intros Hne Hinj Hp. apply spec_agree_iff. apply refine_from_empty; assumption. Qed.
 
 (** ** what the specification says a rollback does (by definition) *)
 Lemma spec_rollback_restores e s t x S r :
